@@ -31,8 +31,7 @@ def recordsOf (v : BlockView) : List TxRec :=
       | some [tx, w] => some { body := tx.encode, wits := w.encode, success := true, aux := none }
       | _ => none
   else
-    cloneTxs { bodies := v.bodies.map Item.encode, wits := v.wits.map Item.encode,
-               aux := auxOfWire (v.auxWire.map fun (k, i) => (k, i.encode)), invalid := v.invalid }
+    cloneTxs (recordOfView v)
 
 def countOf (v : BlockView) : Nat := if v.tag = 1 then v.payloads.length else v.bodies.length
 
